@@ -456,6 +456,13 @@ def differ(c, typ, kind):
         c2 = ou.Content(c.obs, c.samp, c.A, c.obs_md, copy.deepcopy(d.samp_md))
         c2.samp_md[-1]['extra'] = 'same'
         return (c2, typ), (d, typ)
+    elif kind in ('samp-md-extra-key', 'samp-md-extra-key-rev', 'obs-md-extra-key-rev'):
+        # one record of one table carries a key the other table's record lacks (either operand order)
+        which = 'obs_md' if kind.startswith('obs') else 'samp_md'
+        if getattr(d, which) is None:
+            return None
+        getattr(d, which)[-1]['only-here'] = 'x'
+        return ((d, typ), (c, typ)) if kind.endswith('-rev') else ((c, typ), (d, typ))
     elif kind == 'md-absent':
         if d.samp_md is None:
             return None
@@ -468,7 +475,8 @@ def differ(c, typ, kind):
 
 
 DIFFS = ['value', 'value-to-zero', 'zero-to-value', 'value-moved', 'obs-id', 'samp-id', 'order-ids-only',
-         'order-whole-vectors', 'obs-md-entry', 'samp-md-key', 'md-absent', 'type']
+         'order-whole-vectors', 'obs-md-entry', 'samp-md-key', 'md-absent', 'type',
+         'samp-md-extra-key', 'samp-md-extra-key-rev', 'obs-md-extra-key-rev']
 
 
 def run_differ_case(case):
